@@ -404,7 +404,7 @@ func main() {
 			fmt.Println("replay file carries no scenario")
 			os.Exit(2)
 		}
-		tries := 20
+		tries := 100 // the order of the two pipelines' writes is the scheduler's choice: a run takes some milliseconds
 		if rp.Replay.Scenario.StallMs > 0 {
 			tries = 4 // each run lasts as long as the stall
 		}
